@@ -13,7 +13,9 @@ CORR_CHECK = "check_case"
 CORR_SHOW = "show_case"
 GEN_FILES = ["gen/C20Table.v"]
 SHARD = 300
-RULE = ("interval/json/seq terms are rendered under a context: own keyword arguments, or one of the ten query classes x "
+RULE = ("a third of the interval/json/seq cases render ONE term object 2-4 times in a row under different contexts; leaf "
+        "elements of Tuple/Array count their renderings and are also rendered with a parameter collector; "
+        "interval/json/seq terms are rendered under a context: own keyword arguments, or one of the ten query classes x "
         "{direct get_sql with the class constants, select list, WHERE operand, function argument, INSERT value}; "
         "five families in one Gallina sum type: intervals (every subset of non-zero fields x digit lengths 1-7 incl. "
         "values ending in 0 / powers of ten x sign x dialect given at construction and/or at render, plus quarters, "
@@ -435,6 +437,26 @@ JSON_KW = [{}, {}, {"quote_char": "`"}, {"quote_char": None}, {"quote_char": "["
            {"quote_char": None, "secondary_quote_char": "'", "alias_quote_char": None}]
 
 
+DIALECT_SEQ = ["MYSQL", None, "POSTGRESQL", "ORACLE", "VERTICA", "REDSHIFT", "MSSQL", None, "MYSQL", "ORACLE"]
+
+
+def _again(rng, kind, p):
+    """further contexts under which the same term object is rendered afterwards"""
+    if rng.random() >= p:
+        return None
+    out = []
+    for _ in range(rng.choice([1, 1, 2, 3])):
+        if rng.random() < 0.5:
+            out.append({"cls": rng.randrange(len(CLASS_NAMES)), "pos": rng.choice(POSITIONS)})
+        elif kind == "interval":
+            out.append({"dr": rng.choice(DIALECT_SEQ)})
+        elif kind == "seq":
+            out.append({"d": rng.choice(DIALECT_SEQ)})
+        else:
+            out.append({"kw": rng.choice(JSON_KW)})
+    return out
+
+
 def gen_intervals(rng, n):
     out = []
     masks = list(range(1, 128))
@@ -464,6 +486,9 @@ def gen_intervals(rng, n):
         cls, pos = _pick_ctx(rng, 0.4)
         if cls is not None:
             c.update({"dr": None, "cls": cls, "pos": pos})
+        ag = _again(rng, "interval", 0.4)
+        if ag:
+            c["again"] = ag
     return out
 
 
@@ -548,6 +573,9 @@ def gen_jsons(rng, n):
             c.update({"cls": cls, "pos": pos})
         else:
             c["kw"] = rng.choice(JSON_KW)
+        ag = _again(rng, "json", 0.25)
+        if ag:
+            c["again"] = ag
         out.append(c)
     return out
 
@@ -596,6 +624,9 @@ def gen_seqs(rng, n):
         cls, pos = _pick_ctx(rng, 0.6)
         if cls is not None:
             c.update({"d": None, "cls": cls, "pos": pos})
+        ag = _again(rng, "seq", 0.35)
+        if ag:
+            c["again"] = ag
         out.append(c)
     return out
 
@@ -648,43 +679,124 @@ def corpus():
         out.append({"kind": "seq", "d": None, "t": ["array", []], "cls": cls, "pos": POSITIONS[(cls + 1) % len(POSITIONS)]})
     for kw in JSON_KW:
         out.append({"kind": "json", "v": ["d", [[["s", "k"], ["s", "v"]]]], "kw": kw})
+    # one object, several renderings (a module-level Interval constant used by statements of several dialects)
+    out.append(dict(iv([0, 0, 1, 2, 0, 0, 0], dr="MYSQL"), again=[{"dr": None}, {"dr": "POSTGRESQL"}, {"dr": "ORACLE"}]))
+    out.append(dict(iv([0] * 7, w=3, dr="POSTGRESQL"), again=[{"dr": "ORACLE"}, {"dr": None}]))
+    out.append(dict(iv([0, 0, 1, 2, 0, 0, 0]), cls=1, pos="select", again=[{"cls": 4, "pos": "select"}, {"cls": 0, "pos": "direct"}, {"cls": 3, "pos": "where"}]))
+    out.append(dict(iv([0, 0, 1, 0, 0, 0, 0], dc="MYSQL", dr="POSTGRESQL"), again=[{"dr": None}, {"cls": 4, "pos": "fnarg"}]))
+    out.append({"kind": "seq", "d": None, "t": ["array", [["int", 10], ["str", "a"], ["array", [["int", 20], ["int", 30]]], ["interval", 1]]],
+                "again": [{"d": "POSTGRESQL"}, {"d": "MYSQL"}, {"cls": 5, "pos": "select"}]})
+    out.append({"kind": "seq", "d": "POSTGRESQL", "t": ["tuple", [["int", 7], ["array", [["int", 8], ["array", [["str", "x"]]]]]]],
+                "again": [{"d": None}]})
+    out.append({"kind": "json", "v": ["d", [[["s", "a"], ["s", "foo"]]]], "cls": 1, "pos": "select",
+                "again": [{"cls": 3, "pos": "direct"}, {"kw": {"quote_char": "`"}}]})
     return out
 
 
 # ------------------------------------------------------------------------------------------------
 # implementation
 # ------------------------------------------------------------------------------------------------
+def subcases(case):
+    """The renderings of a case: its own context, then (key "again") the SAME term object under further contexts."""
+    base = {k: v for k, v in case.items() if k != "again"}
+    subs = [base]
+    for ctx in case.get("again") or []:
+        sub = {k: v for k, v in base.items() if k not in ("cls", "pos", "kw")}
+        sub.update(ctx)
+        subs.append(sub)
+    return subs
+
+
+def sbuild_counted(d, counters):
+    """Like sbuild, but every leaf element counts the calls of its get_sql (one slot per leaf, in order)."""
+    from pypika.terms import Array, Tuple, Bracket
+    ch = s_children(d)
+    if ch is None:
+        t = sbuild(d)
+        slot = [0]
+        counters.append(slot)
+        orig = t.get_sql
+
+        def counted(*a, **k):
+            # Term.__hash__ / __eq__ call get_sql(with_alias=True) without a context (sets of fields when a
+            # statement validates its tables): only calls that carry the rendering context are renderings
+            if "quote_char" in k:
+                slot[0] += 1
+            return orig(*a, **k)
+        t.get_sql = counted
+        return t
+    kids = [sbuild_counted(c, counters) for c in ch]
+    if d[0] == "tuple":
+        return Tuple(*kids)
+    if d[0] == "array":
+        return Array(*kids)
+    return Bracket(kids[0])
+
+
+def _placeholders(desc, kw):
+    """(placeholders in the text, values collected) when the term is rendered with a parameter collector."""
+    from pypika.terms import QmarkParameter
+    p = QmarkParameter()
+    sql = sbuild(desc).get_sql(parameter=p, **kw)
+    return [sql.count("?"), len(p.get_parameters())]
+
+
 def run_impl(case):
     k = case["kind"]
     try:
-        if k == "interval":
-            from pypika.terms import Interval
-            v = case["vals"]
-            i = Interval(years=v[0], months=v[1], days=v[2], hours=v[3], minutes=v[4], seconds=v[5], microseconds=v[6],
-                         quarters=case["q"], weeks=case["w"], dialect=_dialect(case["dc"]))
-            return {"out": render_in_context(i, case)}
         if k == "trim":
             from pypika.terms import Interval
             return {"out": Interval.trim_pattern.sub("", case["s"])}
         if k == "read":
             return {"rd": py_read(case["u"], case["e"])}
-        if k == "json":
+        counters = []
+        if k == "interval":
+            from pypika.terms import Interval
+            v = case["vals"]
+            term = Interval(years=v[0], months=v[1], days=v[2], hours=v[3], minutes=v[4], seconds=v[5], microseconds=v[6],
+                            quarters=case["q"], weeks=case["w"], dialect=_dialect(case["dc"]))
+        elif k == "json":
             from pypika.terms import JSON
-            return {"out": render_in_context(JSON(jbuild(case["v"])), case)}
+            term = JSON(jbuild(case["v"]))
+        elif k == "seq":
+            term = sbuild_counted(case["t"], counters)
+        else:
+            raise ValueError(k)
+        outs, calls, pq = [], [], []
+        for sub in subcases(case):          # the same object, one rendering after the other
+            for slot in counters:
+                slot[0] = 0
+            outs.append(render_in_context(term, sub))
+            # under the driver's history perturbation (case key "_pre": every statement is rendered three times)
+            # the number of renderings per element is not an observation of the term
+            calls.append(None if case.get("_pre") else [slot[0] for slot in counters])
+            if k == "seq":
+                pq.append(_placeholders(case["t"], case_kwargs(sub)[0]))
+        res = {"out": outs[0], "outs": outs}
         if k == "seq":
-            return {"out": render_in_context(sbuild(case["t"]), case)}
+            res.update({"calls": calls, "pq": pq})
+        return res
     except Exception as ex:  # noqa
         return {"exc": type(ex).__name__, "msg": str(ex)[:300]}
-    raise ValueError(k)
 
 
 # ------------------------------------------------------------------------------------------------
 # model side
 # ------------------------------------------------------------------------------------------------
 def to_coq(case, outcome):
-    k = case["kind"]
+    if "harness_exc" in outcome:
+        raise RuntimeError("run_impl failed outside pypika: " + str(outcome["harness_exc"]))
     if "exc" in outcome:
         return None
+    if "outs" not in outcome:
+        return _to_coq_one(case, outcome)
+    subs = subcases(case)
+    texts = [_to_coq_one(sub, {"out": out}) for sub, out in zip(subs, outcome["outs"])]
+    return texts[0] if len(texts) == 1 else "(CMany %s)" % L(texts)
+
+
+def _to_coq_one(case, outcome):
+    k = case["kind"]
     if k == "interval":
         _, dname = case_kwargs(case)
         return "(CInterval %s %s %s %s %s %s)" % (L([Zc(v) for v in case["vals"]]), Zc(case["q"]), Zc(case["w"]),
@@ -842,6 +954,33 @@ def oracle_seq_desc(d, kw, dname, viols, out=None):
 
 
 def oracle(case, outcome):
+    if "outs" not in outcome:
+        return _oracle_one(case, outcome)
+    subs = subcases(case)
+    seen, res = set(), []
+    for i, (sub, out) in enumerate(zip(subs, outcome["outs"])):
+        o = {"out": out}
+        if "calls" in outcome:
+            o.update({"calls": outcome["calls"][i], "pq": outcome["pq"][i]})
+        for v in _oracle_one(sub, o):
+            key = _json.dumps(v["signature"])
+            if key in seen:
+                continue
+            seen.add(key)
+            if i > 0:
+                v = dict(v, what="rendering #%d of ONE term object (earlier contexts: %s): %s" % (
+                    i + 1, "; ".join(_ctx_full(x) for x in subs[:i]), v["what"]))
+            res.append(v)
+    return res
+
+
+def _ctx_full(case):
+    if case.get("cls") is not None:
+        return _ctx_text(case)
+    return "get_sql(dialect=%s)" % case_kwargs(case)[1] if case["kind"] != "json" else _ctx_text(case)
+
+
+def _oracle_one(case, outcome):
     k = case["kind"]
     if k == "interval":
         return oracle_interval(case, outcome)
@@ -854,6 +993,17 @@ def oracle(case, outcome):
         kw, dname = case_kwargs(case)
         dname = "%s [%s]" % (dname, _ctx_text(case)) if case.get("cls") is not None else dname
         oracle_seq_desc(case["t"], kw, dname, viols, out=outcome["out"])
+        kind = "array" if case["t"][0] == "array" else "tuple"
+        calls = outcome.get("calls") or []
+        if any(c != 1 for c in calls):      # calls is None under the history perturbation
+            viols.append({"signature": ["C20", kind, "element-not-rendered-once"],
+                          "what": "%r: the leaf elements were rendered %r times (each must be rendered once) under %s"
+                                  % (outcome["out"], calls, dname)})
+        pq = outcome.get("pq")
+        if pq and pq[0] != pq[1]:
+            viols.append({"signature": ["C20", kind, "parameters-collected-vs-placeholders"],
+                          "what": "rendered with a parameter collector under %s: %d placeholders but %d collected values (term %r)"
+                                  % (dname, pq[0], pq[1], case["t"])})
         seen, out = set(), []
         for v in viols:
             key = _json.dumps(v["signature"])
@@ -895,6 +1045,8 @@ def histogram(cases):
     for c in cases:
         k = c["kind"]
         inc("kind=" + k)
+        if c.get("again"):
+            inc("%s.rendered_%d_times" % (k, 1 + len(c["again"])))
         if k in ("interval", "json", "seq"):
             inc("%s.ctx=%s/%s" % (k, "own-kwargs" if c.get("cls") is None else CLASS_NAMES[c["cls"]], c.get("pos") or "direct"))
         if k == "interval":
